@@ -4,7 +4,7 @@ From Ucfg Require Export Base ParseInt Consts Field Tree PathOps Merge OTree F64
 
 Inductive xobs := XV (t : otree) | XE (r : ereason) | XPanic | XHang.
 
-Inductive tfield := TStr (k : string) | TList (k : string) (n : nat).
+Inductive tfield := TStr (k : string) | TList (k : string) (n : nat) | TSlice (k : string).
 
 Inductive case :=
 | CRead (o : eopts) (root : value) (name : string) (idx : Z) (observed : obs)   (* Config.String *)
@@ -12,8 +12,10 @@ Inductive case :=
 | CFlat (o : eopts) (root : value) (observed : option (list string))             (* FlattenedKeys; None = it did not return *)
 | CExpr (o : nopts) (s : string) (observed : option value)
     (* the text s stored as the setting "v": what NewFrom made of it (None = rejected) *)
-| CTyped (o : eopts) (root : value) (fields : list tfield) (observed : xobs).
-    (* Unpack into a struct: a string field per setting, a []string field per literal list *)
+| CTyped (o : eopts) (root : value) (fields : list tfield) (observed : xobs)
+    (* Unpack into a struct: a string field per setting, a []string field per literal list, a
+       []string field for a setting that is no literal list (TSlice: a reference may name one) *)
+| CHas (o : eopts) (root : value) (name : string) (idx : Z) (observed : obs).       (* Config.Has *)
 
 (** escapes outside any ${...}: "$$" is a dollar, "$}" a closing brace, a last "$" stays.  A
     specification by itself (it does not use the parser model), for texts without "${" *)
@@ -179,6 +181,7 @@ Definition model_agrees (c : case) : bool :=
     | _, _ => false
     end
   | CTyped _ _ _ _ => true       (* typed targets with references are outside the Unpack model *)
+  | CHas _ _ _ _ _ => true       (* judged by the specification only *)
   end.
 
 Definition skipped (c : case) : bool :=
@@ -188,6 +191,7 @@ Definition skipped (c : case) : bool :=
   | CFlat o root _ => match flattened_keys_dyn o "." (fuel_for o root) root with OutOfModel => true | _ => false end
   | CExpr o s _ => match normalize o (GMap true [(KStr "v", GStr s)]) with OutOfModel => true | _ => false end
   | CTyped _ _ _ _ => true
+  | CHas _ _ _ _ _ => true
   end.
 
 (* C08 on a String read, judged by the specification (SpecEval.v): a read that never re-enters a
@@ -207,6 +211,23 @@ Definition spec_read_ok (o : eopts) (root : value) (name : string) (idx : Z) (ob
   | _ => match ob with OPanic => false | _ => true end
   end.
 
+(* Config.Has by the specification: the walk to the setting, nothing is converted.  A setting the
+   specification finds must be reported as present; one it does not find (or cannot reach) must
+   not be *)
+Definition spec_has_ok (o : eopts) (root : value) (name : string) (idx : Z) (ob : obs) : bool :=
+  let fuel := fuel_for o root in
+  let p := opts_path_idx (eo_p o) name idx in
+  match ob with
+  | OPanic => false
+  | _ =>
+    match get_path_s (dyn_s o fuel) p [] {| l_root := root; l_path := ""; l_val := root |} with
+    | Ok (Ok (Some _), false) => obs_eqb ob (OV (VBool true))
+    | Ok (Ok None, false) | Ok (Err _ _, false) | Err _ _ =>
+      negb (obs_eqb ob (OV (VBool true))) || any_absorber o root
+    | _ => true
+    end
+  end.
+
 (* Unpack into typed fields, by the specification: every field and every list entry is read on
    its own.  st_ok: the expected data; st_err: some field fails; st_any: a cyclic error was
    absorbed somewhere (the per-call cache may show) *)
@@ -220,6 +241,18 @@ Definition spec_typed (o : eopts) (root : value) (fs : list tfield) : styped :=
       | Err _ _ => Some None
       | _ => None
       end in
+  let ents (k : string) :=
+      (fix ents (i : nat) (todo : nat) : option (option (list otree)) :=
+                match todo with
+                | O => Some (Some [])
+                | S t => match rd k (Z.of_nat i) with
+                         | Some (Some s) => match ents (S i) t with
+                                            | Some (Some l) => Some (Some (OStr s :: l))
+                                            | x => x end
+                         | Some None => Some None
+                         | None => None
+                         end
+                end) in
   (fix go (l : list tfield) (acc : list (string * otree)) : styped :=
      match l with
      | [] => STOk (rev acc)
@@ -230,20 +263,37 @@ Definition spec_typed (o : eopts) (root : value) (fs : list tfield) : styped :=
        | None => STAny
        end
      | TList k n :: r =>
-       match (fix ents (i : nat) (todo : nat) : option (option (list otree)) :=
-                match todo with
-                | O => Some (Some [])
-                | S t => match rd k (Z.of_nat i) with
-                         | Some (Some s) => match ents (S i) t with
-                                            | Some (Some l) => Some (Some (OStr s :: l))
-                                            | x => x end
-                         | Some None => Some None
-                         | None => None
-                         end
-                end) O n with
+       match ents k O n with
        | Some (Some l) => go r ((k, OList l) :: acc)
        | Some None => STErr
        | None => STAny
+       end
+     | TSlice k :: r =>
+       (* what the setting stands for decides: the entries of a list one by one, a single value
+          as a list of one *)
+       match root with
+       | VSub d _ =>
+         match dict_get k d with
+         | Some (nm, x) =>
+           match reify_s o fuel fuel {| l_root := root; l_path := nm; l_val := x |} with
+           | Ok (XSub [] ar true, false) =>
+             match ents k O (List.length ar) with
+             | Some (Some l) => go r ((k, OList l) :: acc)
+             | Some None => STErr
+             | None => STAny
+             end
+           | Ok ((XBool _ | XInt _ | XUint _ | XFloat _ | XStr _), false) =>
+             match rd k (-1) with
+             | Some (Some s) => go r ((k, OList [OStr s]) :: acc)
+             | Some None => STErr
+             | None => STAny
+             end
+           | Err _ _ => STErr
+           | _ => STAny
+           end
+         | None => STAny
+         end
+       | _ => STAny
        end
      end) fs [].
 
@@ -268,6 +318,50 @@ Fixpoint typed_eqb (spec got : list (string * otree)) : bool :=
   | _, _ => false
   end.
 
+(* Unpack into map[string]interface{} must not fail when the specification evaluates every setting
+   (a cyclic error may have been absorbed on the way: the per-call cache of the implementation can
+   then change values, but it only ever replaces an evaluation by the primitive value an earlier
+   one gave).  Judged where no reference walks a path through another value and no resolver
+   answers: there a primitive is accepted wherever another value is. *)
+Fixpoint exp_simple (e : vexp) : bool :=
+  match e with
+  | EConst _ => true
+  | ERef p _ => (List.length p <=? 1)%nat
+  | ESplice ps => forallb exp_simple ps
+  | ESingle x _ => exp_simple x
+  | EDefault l r _ | EAlt l r _ | EErr l r _ => exp_simple l && exp_simple r
+  end.
+Fixpoint refs_simple (v : value) : bool :=
+  match v with
+  | VRef p _ => (List.length p <=? 1)%nat
+  | VSplice e => exp_simple e
+  | VSub d a =>
+    (fix gd (l : list (string * (string * value))) : bool :=
+       match l with [] => true | (_, (_, x)) :: r => refs_simple x && gd r end) d &&
+    match a with
+    | None => true
+    | Some l => (fix ga (l : list (string * value)) : bool :=
+                   match l with [] => true | (_, x) :: r => refs_simple x && ga r end) l
+    end
+  | _ => true
+  end.
+Definition spec_all_ok (o : eopts) (root : value) : bool :=
+  match root with
+  | VSub d _ =>
+    let fuel := fuel_for o root in
+    forallb (fun e : string * (string * value) =>
+               match reify_s o fuel fuel {| l_root := root; l_path := fst (snd e); l_val := snd (snd e) |} with
+               | Ok _ => true
+               | _ => false
+               end) d
+  | _ => false
+  end.
+Definition unpack_must_succeed (o : eopts) (root : value) : bool :=
+  match eo_res o with
+  | [] => forallb refs_simple (root :: eo_envs o) && spec_all_ok o root
+  | _ => false
+  end.
+
 Definition prop_holds (c : case) : bool :=
   match c with
   | CTyped _ _ _ XPanic | CTyped _ _ _ XHang => false
@@ -281,7 +375,9 @@ Definition prop_holds (c : case) : bool :=
     end
   | CRead _ _ _ _ OPanic => false
   | CRead o root name idx ob => spec_read_ok o root name idx ob
+  | CHas o root name idx ob => spec_has_ok o root name idx ob
   | CUnpackDyn _ _ XPanic | CUnpackDyn _ _ XHang => false
+  | CUnpackDyn o root (XE _) => negb (unpack_must_succeed o root)
   | CFlat _ _ None => false
   (* a text without "${" is a literal: it reads back with its escapes undone, wherever they stand *)
   | CExpr _ s obs =>
